@@ -666,7 +666,15 @@ def drive(data: bytes, access: str, visor: bool):
     fh = None
     try:
         if access in ("gz", "opengz"):
-            fh = io.BytesIO(gzip.compress(data, compresslevel=1, mtime=0))
+            import zlib
+            k = zlib.crc32(data)
+            if k & 1 and len(data) > 1024:
+                # a wrapper of several gzip members (what `cat a.gz b.gz` or a chunking compressor writes): one stream
+                cut = 512 + (k >> 1) % (len(data) - 1024)
+                parts = [data[:cut], data[cut:]] if k & 2 else [data[:cut], b"", data[cut:]]
+            else:
+                parts = [data]
+            fh = io.BytesIO(b"".join(gzip.compress(q, compresslevel=1, mtime=0) for q in parts))
         else:
             fh = io.BytesIO(data)
         try:
